@@ -494,6 +494,24 @@ func MapOrderIntn(n int) int {
 	return s.ord.Intn(n)
 }
 
+// GOMAXPROCS / NumCPU are what instrumented runtime.GOMAXPROCS / runtime.NumCPU call: the
+// parallelism of the machine is environment, and code that sizes something by it (a semaphore, a
+// shard count) must behave the same in every worker process for a run to be repeatable. The
+// value is drawn per run from the run seed (1, 2, 4 or 16); outside a run it is 4. Setting it is
+// accepted and ignored.
+//
+//go:norace
+func GOMAXPROCS(n int) int { return NumCPU() }
+
+//go:norace
+func NumCPU() int {
+	s := cur()
+	if s == nil {
+		return 4
+	}
+	return []int{1, 2, 4, 16}[SplitMix64(s.cfg.AuxSeed^0x5be0cd19137e2179)%4]
+}
+
 // RunEpoch identifies the current simulated run (0 outside a run).
 //
 //go:norace
